@@ -47,7 +47,10 @@ StaleDefinerConflict(sd) ==
      IN /\ w \in Keys(sd.state)
         \* (w itself may have been detached on its own since, which forgets its owner)
         /\ \E c \in ab : /\ sd.state.nodes[w].creator \in {c, NULL}
-                          /\ c \in Keys(sd.state) /\ sd.state.nodes[c].sstate = "PENDING"
+                          \* (the old definer has not been executed successfully since the edit: it is
+                          \* PENDING, or still SUCCEEDED from its former life and detached with the failed plan)
+                          /\ c \in Keys(sd.state)
+                          /\ (sd.state.nodes[c].sstate = "PENDING" \/ (sd.state.nodes[c].sstate = "SUCCEEDED" /\ sd.state.nodes[c].detached))
                           /\ \E f \in ab \ {c} : f \in Keys(sd.state) /\ sd.state.nodes[f].sstate = "FAILED"
 
 (* C01 *)
@@ -153,11 +156,17 @@ CrashEquiv(e) ==
   \cup {<<"restart_raised", x>> : x \in SeqSet(e.info.errors)}
 
 (* C14 *)
-WatchEqRestart(e) ==
+\* F17 seen through this relation: when a plan edit moves a step between plans, whether the build
+\* fails depends on the schedule (see StaleDefinerConflict), not on watching versus restarting
+WatchDiff(e) ==
   (IF e.a.rc # e.b.rc THEN {<<"return_code_differs", <<e.a.rc, e.b.rc>>>>} ELSE {})
   \cup CanonDiff(e.a.state, e.a.disk, e.b.state, e.b.disk)
   \cup {<<"disk_differs", p>> : p \in {p \in (DOMAIN e.a.disk.files) \cup (DOMAIN e.b.disk.files) :
             DiskContent(e.a.disk, p) # DiskContent(e.b.disk, p)}}
+WatchEqRestart(e) ==
+  IF (RcClass(e.a.rc) = "failed" /\ StaleDefinerConflict(e.a)) \/ (RcClass(e.b.rc) = "failed" /\ StaleDefinerConflict(e.b))
+  THEN {<<c[1], c[2], "F17-step-moved-between-plans-watch-vs-restart">> : c \in WatchDiff(e)}
+  ELSE WatchDiff(e)
 
 (* C06: `stepup clean` on a read-only connection *)
 CleanTool(e) ==
